@@ -38,8 +38,11 @@ BLOCK_RULE_FUNCS = {
 }
 
 
-def _monitored_md(state, cfg):
-    key = ("mmd", cfg)
+CONTAINER_RULE_FUNCS = {"blockquote": ("markdown_it.rules_block.blockquote.blockquote", "contracts.cons"), "list": ("markdown_it.rules_block.list.list_block", "contracts.listc")}
+
+
+def _monitored_md(state, cfg, containers=False):
+    key = ("mmd", cfg, containers)
     if key in state:
         return state[key]
     md = U.make_md(cfg)
@@ -47,15 +50,21 @@ def _monitored_md(state, cfg):
     log = []
     for rule in md.block.ruler.__rules__:
         q = BLOCK_RULE_FUNCS.get(rule.name)
-        if not q or q not in B.REGISTRY:
+        R = B
+        if containers and rule.name in CONTAINER_RULE_FUNCS:
+            q, modname = CONTAINER_RULE_FUNCS[rule.name]
+            R = importlib.import_module(modname)
+        if not q or q not in R.REGISTRY:
             continue
-        mon = Monitor(B.REGISTRY[q], B.SPECFUNS)
+        mon = Monitor(R.REGISTRY[q], R.SPECFUNS)
         real = rule.fn
 
         def wrapper(st, startLine, endLine, silent, _mon=mon, _real=real, _q=q):
             outcome, val, failed, pre_ok = _mon.call(_real, {"state": st, "startLine": startLine, "endLine": endLine, "silent": silent})
             for kind, label in failed:
                 log.append((_q, kind, label, startLine, endLine, silent))
+            if outcome == "precondition-false":
+                return _real(st, startLine, endLine, silent)
             if outcome == "raised":
                 raise val
             return val
@@ -66,8 +75,13 @@ def _monitored_md(state, cfg):
     return state[key]
 
 
-def block_contracts(state, cfg, doc):
-    md, log = _monitored_md(state, cfg)
+def container_contracts(state, cfg, doc):
+    """as block_contracts, with blockquote and list_block monitored too (their contracts evaluated natively at every call)"""
+    return block_contracts(state, cfg, doc, containers=True)
+
+
+def block_contracts(state, cfg, doc, containers=False):
+    md, log = _monitored_md(state, cfg, containers)
     del log[:]
     toks = md.parse(doc)
     fails = []
